@@ -224,10 +224,11 @@ class _Store:
             shutil.rmtree(self.dir, ignore_errors=True)
 
 
-def run_outline(outline, oracle, crash_at=(), medium='pickle', max_units=200, lag=0, loaders='default'):
+def run_outline(outline, oracle, crash_at=(), medium='pickle', max_units=200, lag=0, loaders='default', reloads=0):
     """-> dict(units=[[call,...],...], result, state, restores). One unit = one step() in RUNNING state.
     At a unit boundary in crash_at the process is checkpointed; `lag` units later the running instance is abandoned and the
-    checkpoint loaded in a fresh event loop (lag > 0: the work since the checkpoint is lost and done again)."""
+    checkpoint loaded in a fresh event loop (lag > 0: the work since the checkpoint is lost and done again).  reloads > 0: the
+    restored instance is abandoned as well max(lag, 1) units later and the SAME checkpoint loaded again, `reloads` more times."""
     loop = vloop.install()
     cls = build_workchain(outline, oracle, alias=not crash_at and medium == 'none')
     proc = cls()
@@ -239,7 +240,9 @@ def run_outline(outline, oracle, crash_at=(), medium='pickle', max_units=200, la
     seen = 0
     n = 0
     store = _Store(medium, loaders)
-    pending = None            # unit index at which the kept checkpoint was taken
+    pending = None            # unit index at which the kept checkpoint is due to be loaded
+    left = 0                  # further loads of the same checkpoint after the next one
+    kept_trace = None         # the call trace the checkpoint holds (what every load of it must give back)
     # with loaders other than the default ONE load context (it names no loader) serves every load of the run, as a launcher's does:
     # each bundle must be loaded with the loader recorded in it
     shared = plumpy.LoadSaveContext(loop=loop) if loaders != 'default' else None
@@ -251,9 +254,15 @@ def run_outline(outline, oracle, crash_at=(), medium='pickle', max_units=200, la
         if proc.state == ProcessState.RUNNING and len(units) in crash_at and len(units) not in crashed and pending is None:
             crashed.add(len(units))
             store.save(proc)
-            pending = len(units)
-        if proc.state == ProcessState.RUNNING and pending is not None and len(units) == pending + lag:
-            pending = None
+            pending = len(units) + lag
+            left = reloads
+            kept_trace = [list(c) for c in proc.ctx.__dict__.get('trace', [])]
+        if proc.state == ProcessState.RUNNING and pending is not None and len(units) == pending:
+            if left > 0:
+                left -= 1
+                pending = len(units) + max(lag, 1)
+            else:
+                pending = None
             bundle = store.load()
             del proc                                    # the running instance is abandoned
             if shared is None:
@@ -261,6 +270,9 @@ def run_outline(outline, oracle, crash_at=(), medium='pickle', max_units=200, la
             proc = bundle.unbundle(shared if shared is not None else plumpy.LoadSaveContext(loop=loop))
             restores += 1
             seen = len(proc.ctx.__dict__.get('trace', []))
+            if [list(c) for c in proc.ctx.__dict__.get('trace', [])] != kept_trace:
+                # (Outline!RestoreFrom: calls = ckpt.calls) the work of an abandoned instance leaked into the checkpoint
+                roundtrip_bad.append([len(units), 'the loaded checkpoint holds the call trace %s, saved was %s' % (proc.ctx.__dict__.get('trace', []), kept_trace)])
             # C07: saving what was just loaded gives the same bundle
             from . import core_real
             ref = store.load() if medium in ('mem', 'pfile') else bundle
